@@ -104,6 +104,7 @@ class ParseContext:
         self.random_references = []
         self.files_being_parsed = []
         self.macros_being_expanded = []
+        self.version = None
 
     def line_num(self, obj=None) -> Dict:
         if not obj:
@@ -697,7 +698,14 @@ def parse_top_level_elements(path: Path, data: List, context: ParseContext):
     context.plugins.extend(
         resolve_plugins(plugin_specs, search_paths=[plugin_near_recipe])
     )
-    context.version = parse_version(top_level_objects["snowfakery_version"], context)
+    own_version = parse_version(top_level_objects["snowfakery_version"], context)
+    if own_version is not None:
+        if context.version not in (None, own_version):
+            raise exc.DataGenSyntaxError(
+                "Cannot have multiple conflicting versions in the same recipe: ",
+                **context.line_num(top_level_objects["snowfakery_version"][0]),
+            )
+        context.version = own_version
     statements.extend(top_level_objects["statement"])
     for pluginbase, plugin in context.plugins:
         if pluginbase == ParserMacroPlugin:
